@@ -169,26 +169,37 @@ def _wrun_chunk(cases):
 
 
 class Pool:
+    """Worker processes (spawned, non-daemonic so that scenarios may start processes themselves)."""
+
     def __init__(self, scen_name, workers, sched=True, quiet=True):
+        import concurrent.futures as cf
         ctx = multiprocessing.get_context('spawn')
-        self.pool = ctx.Pool(workers, initializer=_winit, initargs=(scen_name, sched, quiet), maxtasksperchild=2000)
+        self.ex = cf.ProcessPoolExecutor(workers, mp_context=ctx, initializer=_winit,
+                                         initargs=(scen_name, sched, quiet))
 
     def map(self, cases, per_case_timeout=120.0):
+        import concurrent.futures as cf
         csz = max(1, min(16, len(cases) // 64 or 1))
         chunks = [cases[i:i + csz] for i in range(0, len(cases), csz)]
-        pending = [self.pool.apply_async(_wrun_chunk, (ch,)) for ch in chunks]
+        pending = [self.ex.submit(_wrun_chunk, ch) for ch in chunks]
         out = []
         for ch, p in zip(chunks, pending):
             try:
-                out += p.get(timeout=per_case_timeout * len(ch))
-            except multiprocessing.TimeoutError:
-                self.pool.terminate()
+                out += p.result(timeout=per_case_timeout * len(ch))
+            except cf.TimeoutError:
+                self.close()
                 raise InfraError(f'a scenario worker did not answer within {per_case_timeout * len(ch)}s')
+            except cf.process.BrokenProcessPool as e:
+                raise InfraError(f'a scenario worker died: {e}')
         return out
 
     def close(self):
-        self.pool.terminate()
-        self.pool.join()
+        for p in list(getattr(self.ex, '_processes', {}).values()):
+            try:
+                p.kill()
+            except Exception:
+                pass
+        self.ex.shutdown(wait=False, cancel_futures=True)
 
 
 # ----------------------------------------------------------------------------------------------
